@@ -8,17 +8,20 @@ import OpcuaModel.Model.SrvIdsLemmas
   against the real service handlers, with the background calls scheduled
   through `verifPoint`).
 
-  What holds on the unchanged code: monitored item ids are fresh (below the
-  2^32 wrap); subscription ids are fresh only while the table is `{1..n}`
-  (`C32_sub_id_fresh_partial`); DeleteSubscriptions and CreateMonitoredItems
-  refuse foreign subscriptions and touch nothing (`C32_deleteSubs_scoped`,
-  `C32_createItems_scoped`); SetMonitoringMode / DeleteMonitoredItems leave every
-  item they do not name alone (`…_frame`).
-  What does not hold (machine-checked counterexamples, listed findings):
-  a subscription id is handed out while a subscription with that id is alive;
-  SetMonitoringMode and DeleteMonitoredItems act on foreign items and answer
-  Good; a stale background `DeleteSubscription(id)` deletes a new subscription
-  of another session that got the same id.
+  After the repairs (a subscription id counter that only grows; the two item
+  services test the id and the owner first and skip the entry) the property
+  holds at full strength, below the 2^32 wrap of the two counters:
+    * every subscription / monitored item id handed out is new — not in use and
+      not named by any pending background deletion (`C32_sub_id_fresh`,
+      `C32_item_ids_fresh`), the invariants are kept by every step
+      (`C32_subinv_step`), so a late `DeleteSubscription(id)` can never hit a
+      subscription created after it was spawned (`C32_pending_cannot_hit_new`);
+    * DeleteSubscriptions, CreateMonitoredItems, SetMonitoringMode and
+      DeleteMonitoredItems change nothing that belongs to another session,
+      whatever ids they name (`…_scoped`), and refuse unknown and foreign ids
+      entry by entry with no effect (`…_refused`).
+  The four former counterexample histories are restated for the repaired code
+  (`C32_repaired_*`).
 -/
 namespace Opcua.Props.C32
 open Opcua.SrvIds
@@ -26,8 +29,8 @@ open Opcua.SrvIds
 -- ---------------------------------------------------------------- uniqueness
 
 /-- monitored item ids: below the wrap of the 32-bit counter, the ids handed out
-    by one CreateMonitoredItems are pairwise distinct and distinct from every id
-    in use, and the invariant "ids in use are in 1..counter" is kept -/
+    by one CreateMonitoredItems are pairwise distinct, non-zero and distinct from
+    every id in use, and the invariant (ids in use are distinct and in 1..counter) is kept -/
 theorem C32_item_ids_fresh (st st' : St) (sess sub n : Nat) (ids : List Nat)
     (hinv : ItemInv st) (hw : st.itemCtr + n < 4294967296)
     (h : createItems st sess sub n = (.itemIds ids, st')) :
@@ -45,51 +48,140 @@ theorem C32_item_ids_fresh (st st' : St) (sess sub n : Nat) (ids : List Nat)
         obtain ⟨h1, h2⟩ := h
         obtain ⟨hc, hm⟩ := allocIds_small n st.itemCtr hw
         subst h1
-        refine ⟨allocIds_nodup n st.itemCtr hw, ?_, ?_⟩
-        · intro i hi
+        have hfresh : ∀ i ∈ (allocIds n st.itemCtr).1, i ∉ liveItemIds st ∧ i ≠ 0 := by
+          intro i hi
           have hr := (hm i).1 hi
           refine ⟨?_, by omega⟩
           intro hlive
           simp only [liveItemIds, List.mem_map] at hlive
           obtain ⟨it, hit, rfl⟩ := hlive
-          have := hinv it hit
+          have := hinv.1 it hit
           omega
-        · subst h2
-          intro it hit
+        refine ⟨allocIds_nodup n st.itemCtr hw, hfresh, ?_⟩
+        subst h2
+        refine ⟨?_, ?_⟩
+        · intro it hit
           simp only [List.mem_append, List.mem_map] at hit
           rcases hit with hit | ⟨i, hi, rfl⟩
-          · have := hinv it hit; simp only [hc]; omega
+          · have := hinv.1 it hit; simp only [hc]; omega
           · have hr := (hm i).1 hi; simp only [hc]; omega
+        · simp only [List.map_append, List.map_map]
+          have hid : (List.map ((fun x : Item => x.id) ∘ fun i => (⟨i, o, 0⟩ : Item)) (allocIds n st.itemCtr).1)
+              = (allocIds n st.itemCtr).1 := by
+            simp [Function.comp_def]
+          rw [hid]
+          refine List.nodup_append.2 ⟨hinv.2, allocIds_nodup n st.itemCtr hw, ?_⟩
+          intro a ha b hb hab
+          subst hab
+          exact (hfresh a hb).1 (by simpa [liveItemIds] using ha)
 
-/-- subscription ids, partial: while the table is exactly {1..n} the new id n+1
-    is not in use and the table stays dense -/
-theorem C32_sub_id_fresh_partial (st : St) (sess : Nat) (hd : Dense st) :
-    ∃ id, (createSub st sess).1 = .subId id ∧ id ∉ liveSubIds st ∧ Dense (createSub st sess).2 := by
-  have hfresh : st.subs.length + 1 ∉ liveSubIds st := by
-    intro h; have := (hd _).1 h; omega
-  refine ⟨st.subs.length + 1, rfl, hfresh, ?_⟩
-  intro id
-  simp only [createSub, liveSubIds] at hfresh ⊢
-  rw [putSub_fresh _ _ _ hfresh]
-  simp only [List.map_append, List.map_cons, List.map_nil, List.mem_append, List.mem_singleton,
-    List.length_append, List.length_cons, List.length_nil]
-  have := hd id
-  simp only [liveSubIds] at this
-  rw [this]; omega
+/-- subscription ids (full strength since the repair): below the wrap of the
+    counter the id handed out is non-zero, not in use, and not named by any
+    pending background deletion; the invariant is kept -/
+theorem C32_sub_id_fresh (st : St) (sess : Nat) (hinv : SubInv st) (hw : st.subCtr + 1 < 4294967296) :
+    (createSub st sess).1 = .subId (st.subCtr + 1) ∧
+    st.subCtr + 1 ∉ liveSubIds st ∧ st.subCtr + 1 ∉ st.pending ∧ SubInv (createSub st sess).2 := by
+  have hid : nextID st.subCtr = st.subCtr + 1 := nextID_small _ hw
+  have hfresh : st.subCtr + 1 ∉ liveSubIds st := fun h => by have := hinv.1 _ h; omega
+  have hpend : st.subCtr + 1 ∉ st.pending := fun h => by have := hinv.2 _ h; omega
+  refine ⟨by simp [createSub, hid], hfresh, hpend, ?_, ?_⟩
+  · intro id h
+    simp only [createSub, hid, liveSubIds] at h hfresh
+    rw [putSub_fresh _ _ _ (by simpa [liveSubIds] using hfresh)] at h
+    simp only [List.map_append, List.map_cons, List.map_nil, List.mem_append, List.mem_singleton] at h
+    simp only [createSub, hid]
+    rcases h with h | rfl
+    · have := hinv.1 id (by simpa [liveSubIds] using h); omega
+    · omega
+  · intro id h
+    simp only [createSub, hid] at h ⊢
+    have := hinv.2 id h; omega
 
-/-- FINDING C32.subscription-id-reused-while-live — create, create, delete #1
-    (the background call runs), create: the server hands out id 2 again while
-    subscription 2 of session 1 is alive, and the table entry is overwritten -/
-theorem C32_finding_subscription_id_reused :
-    let r := run (St.init 0) [.createSub 1, .createSub 1, .deleteSubs 1 [1], .apply 0, .createSub 2]
-    r.1 = [.subId 1, .subId 2, .statuses [.ok], .applied true, .subId 2] ∧
-    -- id 2 was live (owned by session 1) when it was handed out again …
-    2 ∈ liveSubIds (run (St.init 0) [.createSub 1, .createSub 1, .deleteSubs 1 [1], .apply 0]).2 ∧
-    -- … and the entry now belongs to session 2: session 1's subscription is unreachable
-    lookupSub r.2.subs 2 = some ⟨3, 2, 2⟩ := by
-  decide
+/-- a background DeleteSubscription(id) call removes only what is registered
+    under that id: other table entries and the items of other subscription ids stay -/
+theorem C32_apply_frame (st : St) (k : Nat) :
+    (∀ e ∈ st.subs, (∀ id, st.pending[k]? = some id → e.1 ≠ id) → e ∈ (applyDelete st k).2.subs) ∧
+    (∀ it ∈ st.items, (∀ id, st.pending[k]? = some id → it.sub.id ≠ id) → it ∈ (applyDelete st k).2.items) := by
+  cases hp : st.pending[k]? with
+  | none => rw [applyDelete_none st k hp]; simp
+  | some id =>
+    simp only [Option.some.injEq, forall_eq']
+    cases hl : lookupSub st.subs id with
+    | none =>
+      rw [applyDelete_miss st k id hp hl]
+      exact ⟨fun e he _ => he, fun it hit hne => by simp [hit, hne]⟩
+    | some o =>
+      rw [applyDelete_hit st k id o hp hl]
+      exact ⟨fun e he hne => by simp [eraseSub, he, hne], fun it hit hne => by simp [hit, hne]⟩
 
--- ---------------------------------------------------------------- session scope: what holds
+/-- every request and every background step keeps the invariant (CreateSubscription below the wrap) -/
+theorem C32_subinv_step (st : St) (op : Op) (hinv : SubInv st)
+    (hw : ∀ s, op = .createSub s → st.subCtr + 1 < 4294967296) : SubInv (step st op).2 := by
+  cases op with
+  | createSub s => exact (C32_sub_id_fresh st s hinv (hw s rfl)).2.2.2
+  | deleteSubs s ids =>
+    refine ⟨hinv.1, ?_⟩
+    intro id h
+    simp only [step, deleteSubs, List.mem_append] at h
+    rcases h with h | h
+    · exact hinv.2 id h
+    · obtain ⟨o, ho, _⟩ := deleteSubsLoop_spawned st.subs s ids id h
+      exact hinv.1 id (List.mem_map.2 ⟨(id, o), lookupSub_mem ho, rfl⟩)
+  | apply k =>
+    simp only [step]
+    cases hp : st.pending[k]? with
+    | none => rw [applyDelete_none st k hp]; exact hinv
+    | some id =>
+      have hidp : id ∈ st.pending := List.mem_of_getElem? hp
+      have hsubp : ∀ x, x ∈ st.pending.eraseIdx k → x ∈ st.pending := fun x hx => List.mem_of_mem_eraseIdx hx
+      cases hl : lookupSub st.subs id with
+      | none =>
+        rw [applyDelete_miss st k id hp hl]
+        exact ⟨hinv.1, fun x hx => hinv.2 x (hsubp x hx)⟩
+      | some o =>
+        rw [applyDelete_hit st k id o hp hl]
+        refine ⟨fun x hx => hinv.1 x (liveSubIds_erase st.subs id x hx), ?_⟩
+        intro x hx
+        simp only [List.mem_append, List.mem_singleton] at hx
+        rcases hx with hx | rfl
+        · exact hinv.2 x (hsubp x hx)
+        · exact hinv.2 x hidp
+  | createItems s sub n =>
+    have hsame : (createItems st s sub n).2.subs = st.subs ∧ (createItems st s sub n).2.pending = st.pending ∧
+        (createItems st s sub n).2.subCtr = st.subCtr := by
+      unfold createItems
+      cases lookupSub st.subs sub with
+      | none => simp
+      | some o => simp only []; split <;> (try split) <;> simp
+    refine ⟨?_, ?_⟩
+    · intro id h; simp only [step, liveSubIds, hsame.1, hsame.2.2] at h ⊢; exact hinv.1 id h
+    · intro id h; simp only [step, hsame.2.1, hsame.2.2] at h ⊢; exact hinv.2 id h
+  | setMode s m ids => exact hinv
+  | deleteItems s ids => exact hinv
+
+/-- consequence: a background `DeleteSubscription(id)` that is pending when a
+    subscription is created can never remove it, however late it runs (the former
+    finding C32.stale-delete-kills-foreign-subscription) -/
+theorem C32_pending_cannot_hit_new (st : St) (sess k : Nat) (hinv : SubInv st)
+    (hw : st.subCtr + 1 < 4294967296) :
+    ∃ o, o.owner = sess ∧ o.id = st.subCtr + 1 ∧
+      (st.subCtr + 1, o) ∈ (applyDelete (createSub st sess).2 k).2.subs := by
+  obtain ⟨_, hfresh, hpend, _⟩ := C32_sub_id_fresh st sess hinv hw
+  have hid : nextID st.subCtr = st.subCtr + 1 := nextID_small _ hw
+  refine ⟨⟨st.nextUid, st.subCtr + 1, sess⟩, rfl, rfl, ?_⟩
+  have hmem : (st.subCtr + 1, (⟨st.nextUid, st.subCtr + 1, sess⟩ : SubObj)) ∈ (createSub st sess).2.subs := by
+    simp only [createSub, hid]
+    rw [putSub_fresh _ _ _ (by simpa [liveSubIds] using hfresh)]
+    simp
+  refine (C32_apply_frame (createSub st sess).2 k).1 _ hmem ?_
+  intro id hp e
+  have : id ∈ st.pending := by
+    have := List.mem_of_getElem? hp
+    simpa [createSub] using this
+  have e' : st.subCtr + 1 = id := e
+  exact hpend (e' ▸ this)
+
+-- ---------------------------------------------------------------- session scope
 
 /-- DeleteSubscriptions: the table and the items are not touched by the request
     itself, and every background deletion it spawns names a subscription that
@@ -124,84 +216,88 @@ theorem C32_createItems_scoped (st : St) (sess sub n : Nat) (o : SubObj)
     createItems st sess sub n = (.errNotYours, st) := by
   simp [createItems, hl, hs, ho, hne]
 
-/-- SetMonitoringMode leaves every item it does not name exactly as it was, and
-    never touches the subscription table -/
-theorem C32_setMode_frame (st : St) (sess mode : Nat) (ids : List Nat) (it : Item)
-    (h : it ∈ st.items) (hn : it.id ∉ ids) :
+/-- SetMonitoringMode by a session changes no monitored item of any other session —
+    whatever ids it names — and never touches the subscription table (full strength
+    since the repair; was false: C32.setmonitoringmode-foreign-item) -/
+theorem C32_setMode_scoped (st : St) (sess mode : Nat) (ids : List Nat) (it : Item)
+    (h : it ∈ st.items) (hf : it.sub.owner ≠ sess) :
     it ∈ (setMode st sess mode ids).2.items ∧ (setMode st sess mode ids).2.subs = st.subs :=
-  ⟨setModeLoop_frame sess mode ids st.items it h hn, rfl⟩
+  ⟨setModeLoop_scoped sess mode ids st.items it h hf, rfl⟩
 
-/-- DeleteMonitoredItems removes only items it names, and never touches the
-    subscription table -/
-theorem C32_deleteItems_frame (st : St) (sess : Nat) (ids : List Nat) (it : Item)
-    (h : it ∈ st.items) (hn : it.id ∉ ids) :
+/-- DeleteMonitoredItems by a session deletes no monitored item of any other session —
+    whatever ids it names (full strength since the repair; was false:
+    C32.deletemonitoreditems-foreign-item) -/
+theorem C32_deleteItems_scoped (st : St) (sess : Nat) (ids : List Nat) (hinv : ItemInv st) (it : Item)
+    (h : it ∈ st.items) (hf : it.sub.owner ≠ sess) :
     it ∈ (deleteItems st sess ids).2.items ∧ (deleteItems st sess ids).2.subs = st.subs := by
   refine ⟨?_, rfl⟩
   simp only [deleteItems, List.mem_filter, h, true_and, Bool.not_eq_true', List.contains_eq_mem,
     decide_eq_false_iff_not]
-  exact fun hc => hn (deleteItemsLoop_named st.items sess ids it.id hc)
+  intro hc
+  obtain ⟨x, hx, hown⟩ := deleteItemsLoop_own st.items sess ids it.id hc
+  rw [lookupItem_self st.items hinv.2 it h] at hx
+  cases hx
+  exact hf hown
 
-/-- partial scope theorem for the two item services: if every item the request
-    names belongs to the requesting session, no item of another session changes -/
-theorem C32_items_scoped_partial (st : St) (sess mode : Nat) (ids : List Nat)
-    (hown : ∀ it ∈ st.items, it.id ∈ ids → it.sub.owner = sess) (it : Item)
-    (h : it ∈ st.items) (hf : it.sub.owner ≠ sess) :
-    it ∈ (setMode st sess mode ids).2.items ∧ it ∈ (deleteItems st sess ids).2.items := by
-  have hn : it.id ∉ ids := fun hi => hf (hown it h hi)
-  exact ⟨(C32_setMode_frame st sess mode ids it h hn).1, (C32_deleteItems_frame st sess ids it h hn).1⟩
+/-- a request of the two item services that names only unknown ids or items of other
+    sessions is refused entry by entry (BadMonitoredItemIdInvalid / BadSessionIdInvalid)
+    and has no effect at all (an unknown id was a nil dereference before the repair) -/
+theorem C32_items_refused (st : St) (sess mode : Nat) (ids : List Nat) (hs : sess ≠ 0)
+    (hall : ∀ id ∈ ids, lookupItem st.items id = none ∨
+      ∃ x, lookupItem st.items id = some x ∧ x.sub.owner ≠ sess ∧ x.sub.owner ≠ 0) :
+    ((setMode st sess mode ids).2 = st ∧
+      ∃ ss, (setMode st sess mode ids).1 = .statuses ss ∧ ss.length = ids.length ∧
+        ∀ s ∈ ss, s = .badMonitoredItemIdInvalid ∨ s = .badSessionIdInvalid) ∧
+    ((deleteItems st sess ids).2 = st ∧
+      ∃ ss, (deleteItems st sess ids).1 = .statuses ss ∧ ss.length = ids.length ∧
+        ∀ s ∈ ss, s = .badMonitoredItemIdInvalid ∨ s = .badSessionIdInvalid) := by
+  obtain ⟨h1, h2, h3⟩ := setModeLoop_refuses st.items sess mode ids hs hall
+  obtain ⟨g1, g2, g3⟩ := deleteItemsLoop_refuses st.items sess ids hs hall
+  have e1 : (setModeLoop st.items sess mode ids).2.1 = st.items := by rw [h1]
+  have e2 : (setModeLoop st.items sess mode ids).2.2 = false := by rw [h1]
+  have f1 : (deleteItemsLoop st.items sess ids).2.1 = [] := by rw [g1]
+  have f2 : (deleteItemsLoop st.items sess ids).2.2 = false := by rw [g1]
+  refine ⟨⟨?_, _, ?_, h2, h3⟩, ⟨?_, _, ?_, g2, g3⟩⟩
+  · simp [setMode, e1]
+  · simp [setMode, e2]
+  · have hft : ∀ l : List Item, l.filter (fun _ => true) = l := by
+      intro l; induction l with
+      | nil => rfl
+      | cons a r ih => simp [List.filter, ih]
+    simp [deleteItems, f1, hft]
+  · simp [deleteItems, f2]
 
-/-- a background DeleteSubscription(id) call removes only what is registered
-    under that id: other table entries and the items of other subscription ids stay -/
-theorem C32_apply_frame (st : St) (k : Nat) :
-    (∀ e ∈ st.subs, (∀ id, st.pending[k]? = some id → e.1 ≠ id) → e ∈ (applyDelete st k).2.subs) ∧
-    (∀ it ∈ st.items, (∀ id, st.pending[k]? = some id → it.sub.id ≠ id) → it ∈ (applyDelete st k).2.items) := by
-  unfold applyDelete
-  cases hp : st.pending[k]? with
-  | none => simp
-  | some id =>
-    simp only [Option.some.injEq, forall_eq']
-    cases hl : lookupSub st.subs id with
-    | none =>
-      simp only []
-      exact ⟨fun e he _ => he, fun it hit hne => by simp [hit, hne]⟩
-    | some o =>
-      simp only [eraseSub]
-      exact ⟨fun e he hne => by simp [he, hne], fun it hit hne => by simp [hit, hne]⟩
+-- ---------------------------------------------------------------- the former counterexamples, on the repaired code
 
--- ---------------------------------------------------------------- session scope: what does not hold
-
-/-- FINDING C32.setmonitoringmode-foreign-item — session 2 sets the monitoring
-    mode of an item of session 1: answered Good, and the mode is changed -/
-theorem C32_finding_setmode_foreign :
-    let r := run (St.init 0) [.createSub 1, .createItems 1 1 1, .setMode 2 7 [1]]
-    r.1 = [.subId 1, .itemIds [1], .statuses [.ok]] ∧
-    r.2.items = [⟨1, ⟨1, 1, 1⟩, 7⟩] := by
+/-- REPAIRED (was C32.subscription-id-reused-while-live): create, create, delete #1
+    (the background call runs), create → the new subscription gets id 3; subscription 2
+    of session 1 is untouched -/
+theorem C32_repaired_subscription_id :
+    let r := run (St.init 0) [.createSub 1, .createSub 1, .deleteSubs 1 [1], .apply 0, .createSub 2]
+    r.1 = [.subId 1, .subId 2, .statuses [.ok], .applied true, .subId 3] ∧
+    lookupSub r.2.subs 2 = some ⟨2, 2, 1⟩ ∧ lookupSub r.2.subs 3 = some ⟨3, 3, 2⟩ := by
   decide
 
-/-- FINDING C32.deletemonitoreditems-foreign-item — session 2 deletes an item of
-    session 1: answered Good, and the item is gone -/
-theorem C32_finding_deleteitems_foreign :
-    let r := run (St.init 0) [.createSub 1, .createItems 1 1 2, .deleteItems 2 [2]]
-    r.1 = [.subId 1, .itemIds [1, 2], .statuses [.ok]] ∧
-    r.2.items = [⟨1, ⟨1, 1, 1⟩, 0⟩] := by
+/-- REPAIRED (was C32.setmonitoringmode-foreign-item / C32.deletemonitoreditems-foreign-item):
+    session 2 naming an item of session 1 gets BadSessionIdInvalid and nothing changes;
+    an unknown id gets BadMonitoredItemIdInvalid instead of a nil dereference -/
+theorem C32_repaired_foreign_item :
+    let r := run (St.init 0) [.createSub 1, .createItems 1 1 2, .setMode 2 7 [1, 9], .deleteItems 2 [2, 9],
+                              .setMode 1 5 [9, 1]]
+    r.1 = [.subId 1, .itemIds [1, 2], .statuses [.badSessionIdInvalid, .badMonitoredItemIdInvalid],
+           .statuses [.badSessionIdInvalid, .badMonitoredItemIdInvalid],
+           .statuses [.badMonitoredItemIdInvalid, .ok]] ∧
+    r.2.items = [⟨1, ⟨1, 1, 1⟩, 5⟩, ⟨2, ⟨1, 1, 1⟩, 0⟩] := by
   decide
 
-/-- FINDING C32.stale-delete-kills-foreign-subscription — the subscription
-    goroutine calls DeleteSubscription(id) once more when it exits; if that call
-    runs after the id was handed out again, it deletes the new subscription (here
-    of session 2) together with its monitored items -/
-theorem C32_finding_stale_delete :
+/-- REPAIRED (was C32.stale-delete-kills-foreign-subscription): the deferred second
+    DeleteSubscription(1) of the old goroutine finds nothing, because session 2's new
+    subscription has id 2 -/
+theorem C32_repaired_stale_delete :
     let r := run (St.init 0) [.createSub 1, .deleteSubs 1 [1], .apply 0, .createSub 2,
-                              .createItems 2 1 1, .apply 0]
-    r.1 = [.subId 1, .statuses [.ok], .applied true, .subId 1, .itemIds [1], .applied true] ∧
-    r.2.subs = [] ∧ r.2.items = [] := by
-  decide
-
-/-- the unknown-id outcome of the two item services (a nil dereference, recorded
-    under C29): the model value, for the record -/
-theorem C32_unknown_item_id_panics :
-    (run (St.init 0) [.createSub 1, .setMode 1 1 [5]]).1 = [.subId 1, .panic] ∧
-    (run (St.init 0) [.createSub 1, .deleteItems 1 [5]]).1 = [.subId 1, .panic] := by
+                              .createItems 2 2 1, .apply 0]
+    r.1 = [.subId 1, .statuses [.ok], .applied true, .subId 2, .itemIds [1], .applied false] ∧
+    r.2.subs = [(2, ⟨2, 2, 2⟩)] ∧ r.2.items = [⟨1, ⟨2, 2, 2⟩, 0⟩] := by
   decide
 
 /-- non-vacuity: a well-behaved history -/
